@@ -44,7 +44,7 @@ CLAIMED = {
     "C05": {
         "text": "Every sub-volume is covered by quantifying over arg-max outcomes: the real sub-pixel routines of all four models run with a numpy whose argmax over data is an arbitrary in-range index and with opaque interpolation values. "
                 "z3 decides |shift_i| <= max_shifts_i on every path; a path ending in an exception violates 'never fails'. Refinement stage: max_shifts any real >= 0, symbolic landscape sizes; whole routines: boxes (4,4,4),(5,6,7)[,(8,8,8),(7,4,9)], max_shifts symbolic in [0,2*box) on one axis.",
-        "note": "Trusted: z3, symx, BlindNP (argmax -> arbitrary index), HybridNdi (map_coordinates on a symbolic mesh -> opaque array of the mesh's shape), _upsampled_dft output shape (conformance-tested), real numpy/scipy for concrete landscape data, exact reals for float32. Not covered: finite scores/NaN from compiled kernels (division safety is in C07).",
+        "note": "Trusted: z3, symx, BlindNP (argmax -> arbitrary index), HybridNdi (map_coordinates on a symbolic mesh -> opaque array of the mesh's shape), _upsampled_dft output shape (conformance-tested), real numpy/scipy for concrete landscape data, exact reals for float32. Division safety: ZNCC/NCC/FSC models executed on a sub-volume c*1 (c symbolic, zeros included) with symbolic template and mask; every division and square root recorded on the way is a query (divisor != 0, radicand >= 0) for align((0,0,0)) and landscape(m), m in {(0,0,0),(0,0,1),(0,1,1)}, boxes (1,2,2)/(1,1,2). Not covered: NaN from compiled kernels on larger boxes, PCC division safety (numeric section only).",
         "ref": "DESIGN.md §4 C05",
     },
     "C11": {
@@ -57,7 +57,7 @@ CLAIMED = {
     },
     "C12": {
         "text": "Molecule tables with distinct symbolic tags (z3 constants in polars Object columns) for position and orientation plus a tag feature are pushed through all 26 parameterised table operations and all ordered pairs of them on the REAL polars: every output row carries one tag in position, orientation and features; "
-                "the rows are those an independent list oracle selects (order per contract); inputs untouched; group_by/cutby partition with matching keys; symbolic integer arguments of subset/head/tail forked by the explorer; listed inconsistent inputs raise.",
+                "the rows are those an independent list oracle selects (order per contract); inputs untouched; group_by/cutby partition with matching keys; symbolic integer arguments of subset/head/tail forked by the explorer; listed inconsistent inputs raise; a table with features joined with a table without (concat/concat_with/append, both orders, empty and non-empty) is either rejected with the receiver unchanged or consistent with nulls.",
         "note": "Trusted: z3, symx, the real polars (Object-column row semantics), SymRotation rotvec<->quat pair. Bounds: 0/1/3-row tables (5 after concat), single operations and ordered pairs (no triples), concrete key columns (2/4 orderings incl. ties). The solver's part is small here (tag equalities and integer case splits); the value is the exhaustive path enumeration on the real code.",
         "ref": "DESIGN.md §4 C12",
     },
@@ -89,9 +89,13 @@ CLAIMED = {
                 "(ii) thread interleavings of the shared TemplateMaskCache: get() is translated from CPython bytecode to shared-dict steps and all schedules of 2 and 3 threads (switch between any two bytecodes) are bounded-model-checked by z3 (QF_BV): no thread raises, every thread gets the stored value; counterexample schedules are replayed with an opcode-level deterministic scheduler. "
                 "(iii) any other state shared on the model: the source of the model and tilt-model classes is scanned for methods (other than __init__) that assign attributes of self; each such method is executed symbolically from its AST for two tasks "
                 "(values of an uninterpreted sort, calls as uninterpreted functions, every load/store of a written attribute an atomic step), all interleavings are explored and z3 decides whether some interleaving returns results that no sequential order returns; "
-                "a violating schedule is replayed on the real model with an attribute-level scheduler. On the pinned tree no such method exists besides the cache. (iv) bin_image on real dask arrays of symbolic voxels gives the same block sums for irregular chunkings (C15's section).",
+                "a violating schedule is replayed on the real model with an attribute-level scheduler. On the pinned tree no such method exists besides the cache. (iv) bin_image on real dask arrays of symbolic voxels gives the same block sums for irregular chunkings (C15's section). "
+                "(v) task k of construct_loading_tasks samples around molecule k for a tomogram stub with a dask chunk layout (2-3 chunks per axis) and symbolic molecule positions. "
+                "(vi) delayed tasks that share a random generator: the real MockLoader tilt-series simulation runs on a recording dask shim with arrays as terms of an uninterpreted sort and the k-th draw of a generator as draw(g,k); "
+                "for every execution order of the sibling projection tasks z3 decides equality of the result with the reference order; replay with fresh graphs under the synchronous and threaded schedulers.",
         "note": "Trusted: z3, symx, the CPython dict model in checks/c10_cache.py, HybridNdi, real dask (synchronous) for (iv). Assumptions of (iii): called functions are pure and return objects, attribute loads/stores are atomic, np.array/asarray/copy preserve the value, two tasks optionally preceded by one completed call; "
-                "methods with loops/try/with are reported as inconclusive. NOT covered (stated): equality of results across dask schedulers / worker counts for the loaders as a whole - dask's own execution semantics are not encoded.",
+                "methods with loops/try/with are reported as inconclusive. (vi): every array operation is an uninterpreted function, each task runs once, a delayed body that needs concrete data and takes no generator is an uninterpreted function of its arguments. "
+                "NOT covered (stated): equality of results across dask schedulers / worker counts for the loaders as a whole - dask's own execution semantics are not encoded; shared mutable arrays written inside tasks.",
         "ref": "DESIGN.md §4 C10",
     },
     "C17": {
@@ -115,7 +119,7 @@ CLAIMED = {
     "C19": {
         "text": "The real pipeline classes executed on images of symbolic voxels with uninterpreted voxel-wise converters and scale-dependent providers: +,-,*,/ between pipelines and with a scalar on either side, unary minus and comparison give the voxel-wise expression; compose/@ is function application in order and associative, with_scale partialises, provider/converter_function curry. "
                 "Unit handling executed with symbolic scale and parameters and recorded scipy.ndimage calls: radius_px = 0 if |r/scale|<1 else ceil|r/scale| and is invariant under (r,scale)->(lr,ls); dilation/closing dispatch on the sign and use the closed ball of that radius; gaussian_filter/shift/gaussian_smooth/from_array receive sigma/scale, shift/scale, orig/scale; "
-                "from_gaussian's exponent is -1/2 sum((x-c)/sigma)^2 with c=(n-1)/2+shift/scale for every voxel; LoaderBase.normalize_template/mask/input pass the loader's scale.",
+                "from_gaussian's exponent is -1/2 sum((x-c)/sigma)^2 with c=(n-1)/2+shift/scale for every voxel; LoaderBase.normalize_template/mask/input pass the loader's scale; converters leave their input array unmodified and the difference of two gaussian_smooth converters on one mask is the voxel-wise difference of the two Gaussians.",
         "note": "Trusted: z3 (nlsat for the rational unit identities), symx, recorded (not evaluated) scipy.ndimage calls, exp/ceil as uninterpreted/ToInt terms. Bounds: 1x1x2 images for operators, |r/scale| <= 3 for morphology structures, from_gaussian boxes up to 3 voxels per axis. Not covered: from_file/from_files/from_atoms/from_pdb (I/O), lowpass/highpass (C16), threshold_otsu/soft_otsu histograms, resize/zoom interpolation values.",
         "ref": "DESIGN.md §4 C19",
     },
@@ -123,7 +127,7 @@ CLAIMED = {
         "text": "pick_molecules / _pick_in_chunk_wrapped / get_params_and_depth / MoleculesBox / Molecules.concat executed on the REAL dask (synchronous scheduler) over an image of position codes cut into concrete chunks (1-6 per axis, incl. chunks thinner than the "
                 "overlap depth and axes shorter than it), so each block tells which global voxels it holds; particle coordinates, the scale and the detector's behaviour near block borders are symbolic. Per path z3 decides: exactly one molecule per planted "
                 "particle, at coordinate*scale (1 particle anywhere, 2 well separated). Template matcher: one rotated template per searched rotation, rotated about the box centre by the inverse rotation (exact rational quaternions); overlap depth covers every "
-                "owned centre given the landscape geometry of C04; centre = landscape position + (s+1)/2; returned quaternion = searched rotation of the arg-max template; chunked picking with the matcher's per-axis depth. LoG/DoG: sigma_px = sigma/scale, depth - 1/2 >= exclusion radius.",
+                "owned centre given the landscape geometry of C04; centre = landscape position + (s+1)/2; returned quaternion = searched rotation of the arg-max template; chunked picking with the matcher's per-axis depth. LoG/DoG: sigma_px = sigma/scale, depth - 1/2 >= exclusion radius. Boundary modes of map_overlap: default 'nearest', constant 0, 'reflect', per-axis dict/tuple.",
         "note": "Trusted: real dask.array (map_overlap, from_array), real polars, z3, symx. The scipy part of pick_in_chunk is replaced by an idealised detector (stated in the evidence): must report a particle whose r-neighbourhood lies in the block, may report nearer ones, "
                 "may report one spurious border maximum. Bounds: images <= 16 voxels per axis, scale in [0.6, 1.5], sigma 1 nm, templates up to (4,2,6)/(3,5,3), K <= 5. Not covered: whether LoG/DoG/ZNCC maxima coincide with particle centres on real content, "
                 "min-distance suppression, dtype handling, exact ties (a blob centred exactly between two voxels).",
